@@ -299,6 +299,33 @@ func init() {
 		finish(x, n, ss, "")
 	})
 
+	// S-committee-unavailable: RequestOrderedCommittee of height 1 keeps failing while its context lives (the
+	// polling loop of the term constructor). A sync to a higher height, or shutdown, must get the worker out.
+	registerBoth("S-committee-unavailable", []string{"C14", "C15"}, 0, 3, 4, func(x *X, cancel bool) {
+		n := newNode(x, 1)
+		n.BlockCommittee[1] = true
+		n.Boot()
+		s := x.S
+		synced := false
+		s.Thread("sync", func() {
+			n.M.UpdateState(n.Ctx, kit.NewBlock(3, "B3"), n.proofFor(3, "B3"))
+			synced = true
+		})
+		addCancel(n, cancel)
+		if !s.Run(6000) {
+			x.Bad("C16", "livelock", "step horizon reached: the worker spins (events %v)", tail(n.Events, 6))
+		}
+		if !cancel {
+			if !synced {
+				x.Bad("C14", "updatestate-blocked-or-failed", "UpdateState did not return; blocked=%v", s.Blocked())
+			}
+			if h := uint64(n.M.State().Height()); h != 4 {
+				x.Bad("C14", "newest-sync-not-effective", "UpdateState(block 3) returned nil but the node ends at height %d (events %v)", h, tail(n.Events, 8))
+			}
+		}
+		finish(x, n, nil, "")
+	})
+
 	// S-idle+cancel: cancellation of an idle node with the election timer armed (C16 only).
 	registerBoth("S-idle", []string{"C16"}, 1, 4, 6, func(x *X, cancel bool) {
 		n := newNode(x, 1)
@@ -341,4 +368,11 @@ func checkSyncRounds(x *X, n *Node) {
 			}
 		}
 	}
+}
+
+func tail(a []string, k int) []string {
+	if len(a) > k {
+		return a[len(a)-k:]
+	}
+	return a
 }
